@@ -9,7 +9,7 @@
                                 followed by inv=<0|1> (db_inv_b of that state)
      wf <trace>                 1 iff the trace splits into build traces (each ending at C) that are well-formed in sequence
      inv <iter=..> <keys=..> <rows=..>     db_inv_b of an observed state
-     countermodel <which> <n>   db_inv_b after n operations of the counter-model trace (which = iter_after_commit | commit_per_result)
+     countermodel <which> <n>   db_inv_b after n operations of the counter-model trace (which = iter_after_commit | commit_per_result | failed_no_iteration | anything else: the real single-transaction trace)
                                 for the two-result example build *)
 let split c s = if s = "" then [] else String.split_on_char c s
 let parse_value s = if s = "E" then None else
@@ -79,6 +79,7 @@ let () =
         let tr = (match which with
             | "iter_after_commit" -> trace_iteration_after_commit (n_of_int 1) cm_results
             | "commit_per_result" -> trace_commit_per_result (n_of_int 1) cm_results
+            | "failed_no_iteration" -> trace_failed_no_iteration (n_of_int 1) cm_results
             | _ -> trace_of_build (n_of_int 1) cm_results) in
         let st = recover_prefix (nat_of_int (int_of_string n)) tr in
         Printf.sprintf "len=%d %s inv=%s" (List.length tr) (state_str st) (b2s (db_inv_b st))
